@@ -424,6 +424,17 @@ impl Generator {
                     ),
                 )
             }
+            7 | 8 if self.cfg.burst_pm == 0 && !add_in_flight && rng.chance(1, 8) => {
+                // the user adds a word to the user dictionary with a text editor; the next update of
+                // a document must see it
+                let d = *rng.pick(&open_docs);
+                let word = gen_word(rng, self.cfg.word_domain_wide);
+                let path = super::oracle::user_dict_path(&c.settings);
+                ScriptEntry {
+                    wait_quiet: true,
+                    op: Op::Msg { json: change_msg(&d.uri, d.version + 1, &d.text, rng), pre: vec![FsAct::AppendWord { path, word }], set_settings: None },
+                }
+            }
             7 | 8 => {
                 let file = ws[8] > 0 && rng.weighted(&ws[7..9]) == 1;
                 let mut cmd = if file { "HarperAddToFileDict" } else { "HarperAddToUserDict" };
